@@ -83,6 +83,31 @@ CHECKS = {
          "Every ordered pair of a 272-name universe is compared with an independent implementation of the semver track relation, and every NameMap insertion history up to depth 3 (quick) / 4 (thorough) over 16 colliding names is explored on the real map; in every reached state every universe name is looked up and compared with the reference answer, and states reached by different orders of the same insertions must answer identically.",
          "Trusts the reference relation (written from the property statement on an independent semver.org parse). Names outside the universe and histories deeper than the bound are not covered.",
          "DESIGN.md §5 C15, A.6"),
+ "C12": ("mc-lang", "exploration",
+         "exhaustive grammar-derivation enumeration (bounded depth/repetition) plus all single-token mutants, subtree deletions and one-gap layout deviations, each decided by a reference recogniser written from LANGUAGE.md and by the real parser",
+         "For every non-terminal of LANGUAGE.md every derivation to depth 4 with at most 2 repetitions (full substitute set to depth 3; ~11k base documents) is embedded in a minimal document; around each base document every single-token deletion, duplication, swap and substitution by every token class, every subtree deletion, every one-gap layout deviation (no space, newline, line/block comment, CR, tab) and a sweep of 1274 code points in identifier position are generated (~10 M texts). The reference recogniser (harness/mc-lang/src/reference.rs, transcribing the EBNF) and Document::parse must agree on accept/reject; for accepted texts the span-stripped serialised AST must equal the reference derivation tree; rejected texts must carry at least one label inside the source.",
+         "Trusts the reference recogniser as a transcription of LANGUAGE.md (with the widening clarifications listed in the evidence assumptions). Where LANGUAGE.md is silent the case is counted unspecified. Disagreements the maintainers' pinned tests rely on (e.g. `result<_>`) are listed in known-findings.json.",
+         "DESIGN.md §5 C12, §4 E4"),
+ "C13": ("mc-lang", "exploration",
+         "exhaustive round trip parse -> print -> parse -> print over every accepted text of the C12 corpus, every doc-comment form at every gap, and every repository .wac file",
+         "Every text of the C12 corpus that Document::parse accepts (~3.5 M distinct texts quick), 10 doc-comment forms inserted at every gap of every base document, and all 155 .wac files under /repo: t1 = parse(s), p1 = print(t1), t2 = parse(p1) must succeed, strip(t1) == strip(t2) (spans removed, doc comments flattened to non-empty trimmed lines) and print(t2) == p1 byte for byte; every AST construct must occur in at least one round-tripped tree (constructs_never_printed is reported).",
+         "Only accepted texts are round-tripped (acceptance is C12's question). Tree identity is identity of the serde-serialised AST.",
+         "DESIGN.md §5 C13, §4 E4"),
+ "C14": ("mc-lang", "fault_enumeration",
+         "exhaustive single-fault enumeration around valid documents and valid package binaries (every token mutant, prefix, character substitution, multi-byte insertion; every byte prefix, bit flip and byte substitution), nesting families in supervised subprocesses; panic/abort/hang/span oracle on the real parser, resolver, decoder and encoder",
+         "Text half: around every base document of the C12 corpus (depth 3) and every repository .wac file: every single-token mutant, subtree deletion, layout deviation, every prefix, every single-character substitution by {NUL, quote, slash, DEL}, every insertion of 12 multi-byte scalars at every token boundary, truncation into a comment, and parametric nesting families at depths 2^1..2^17 (supervised workers; death by signal or 5 s silence is a violation) - ~5.5 M texts. parse, then resolve (empty package set) and encode must return without panic; every span and every error label must satisfy offset+len <= len on character boundaries; every error must render with miette's graphical handler. Byte half: every prefix, single-bit flip and substitution by {00,01,7F,80,FF} of 14 seed binaries (library components, core module, headers; ~74k byte strings quick) decoded with Package::from_bytes in supervised chunk workers, and decodable ones instantiated and encoded in both modes; 795/5k document x package pairings (missing, swapped, corrupted) resolved and encoded.",
+         "Single faults only (no pairs of faults); invalid UTF-8 is not representable as &str. Hangs are detected by a 5 s silence bound in workers. 4 known findings (deep-nesting stack overflow, miette width panic, encoder panic on a decodable mutant) are listed in known-findings.json.",
+         "DESIGN.md §5 C14, §4 E6"),
+ "C18": ("mc-env", "exploration",
+         "exhaustive enumeration of file-system layouts x keys x overrides x resolver builds on the real FileSystemPackageResolver against a decision table written from README.md",
+         "Full product: package key (quick: ns:name, ns:name:sub, ns:name@1.2.3; thorough: names of 1-3 segments x {unversioned, 1.2.3, 1.2.3-rc.1, 0.1.0+b.7}) x P, P.wasm, P.wat each in {absent, file, directory} x override in {none, .wasm, .wat, .wit, dangling, directory, other-name} x error_on_unknown x resolver build {wit; wit,wat}, plus all ordered pairs of distinct keys over 6 representative layouts in one resolve call (~3k layouts quick). Every file holds a distinct component and every directory a distinct WIT package, so the loaded source is identified from the returned bytes; each layout is materialised in its own directory under the harness target dir and FileSystemPackageResolver::resolve is compared with the decision table of DESIGN.md A.5 (which candidate is loaded, the loaded bytes, UnknownPackage vs PackageResolutionFailure vs skipped).",
+         "Reference bytes come from the same wat / wit-component crates wac links. Override pointing at a directory and a .wat override without text support are run for panics only (sources silent). Real file system (tmp dir under the target dir), no fault injection on I/O errors.",
+         "DESIGN.md §5 C18, A.5"),
+ "C19": ("mc-env", "exploration",
+         "exhaustive enumeration of CLI flag vectors x input classes on the built wac binary, each run compared with the in-process library pipeline and the documented flag meaning",
+         "Every invocation of the wac binary built from /repo (registry feature off) in the product: compose = 14 inputs (6 succeeding shapes incl. a versioned + WIT-directory dependency and a .wat dependency; failing at parse, discovery, unknown package, resolution, encoding, not-a-component; one validation-dependent) x {--deps-dir, default deps/, --dep k=v} x {--import-dependencies} x {-t} x {--no-validate} x {-o, stdout} (thorough: x short/long spellings x argument position x both CLI builds); plug = 3 sockets x ordered lists of 1-3 plug files x {-t} x {-o, stdout}; targets = 7 components x {one-world file, two-world file, WIT directory} x --world {omitted, w1, w2, unknown}; parse = accepted/rejected documents + missing file (~1k process runs quick). Exit status and failure stage must equal the in-process library pipeline's; binary output must be byte-identical to the library's; -t output must assemble to a component with the same E2 reading; the -o file must equal stdout; --import-dependencies must flip embedded/imported provenance; --no-validate must change neither bytes nor status except on the validation-dependent input.",
+         "The in-process pipeline reproduces src/lib.rs + src/commands without the registry feature (no network in the sandbox). README/--help disagreement on `wac targets` positional form is recorded without verdict.",
+         "DESIGN.md §5 C19"),
 }
 
 NOT_BUILT = "check not built yet in this revision (see DESIGN.md Appendix C build order); will be claimed once its engine exists"
